@@ -23,7 +23,7 @@ func init() { register(c14{}) }
 
 func (c14) ID() string { return "C14" }
 func (c14) Rule() string {
-	return "history monitor on the real gts binary (built with hooks H1/H2, scratch HOME/XDG_CACHE_HOME/TMPDIR): for each of the 19 cached subcommands a base invocation a and neighbours a' that differ from a in exactly one thing (each boolean option toggled, each valued option changed, each positional changed, the content of a secondary input changed under the same path, the primary input changed, -F switched); histories over one cache directory: [a,a], [a,a',a], [a',a,a',a], [a -o f, a], [a, a -o f, a], with failing inputs [bad,bad], [bad,good,bad], and [a,b,a,b] where b is another subcommand given a's arguments and input (every ordered pair of subcommands), and [a,a,a -o f,a] on a 2.6 MB three-record FASTA stream for clear, reverse, complement, sort. Oracle: every invocation's (output bytes on stdout or in the -o file, exit status) equals the memoised result of the same command with --no-cache in a pristine environment. The H2 event log must show a real cache hit for every command (else inconclusive); the option table is cross-checked against `gts <cmd> --help`. non-trivial: a history whose neighbour references differ (the changed thing matters on that input) or that contains a real hit; distinct: (argv, input digests, history shape). Also: a cache directory that takes no new entry (gts-cache linked to /proc/self), and the entry of a multi-MiB output torn as by a killed writer (zeroed header, half of the stored blocks) before the next identical run."
+	return "history monitor on the real gts binary (built with hooks H1/H2, scratch HOME/XDG_CACHE_HOME/TMPDIR): for each of the 19 cached subcommands a base invocation a and neighbours a' that differ from a in exactly one thing (each boolean option toggled, each valued option changed, each positional changed, the content of a secondary input changed under the same path, the primary input changed, -F switched); histories over one cache directory: [a,a], [a,a',a], [a',a,a',a], [a -o f, a], [a, a -o f, a], with failing inputs [bad,bad], [bad,good,bad], and [a,b,a,b] where b is another subcommand given a's arguments and input (every ordered pair of subcommands), and [a,a,a -o f,a] on a 2.6 MB three-record FASTA stream for clear, reverse, complement, sort. Oracle: every invocation's (output bytes on stdout or in the -o file, exit status) equals the memoised result of the same command with --no-cache in a pristine environment. The H2 event log must show a real cache hit for every command (else inconclusive); the option table is cross-checked against `gts <cmd> --help`. non-trivial: a history whose neighbour references differ (the changed thing matters on that input) or that contains a real hit; distinct: (argv, input digests, history shape). Also: a cache directory that takes no new entry (gts-cache linked to /proc/self), and the entry of a multi-MiB output torn as by a killed writer (zeroed header, half of the stored blocks) before the next identical run. A three-record infix host file and its twin that differs in the last residue of the last record."
 }
 func (c14) Assumptions() []string {
 	return []string{"the --no-cache run in a pristine environment is the reference (memoised per argv+input digests)", "stderr is not compared", "one gts process at a time per cache directory", "Go toolchain; hooks H1/H2 only observe"}
@@ -251,6 +251,8 @@ func c14Plans() []cmdPlan {
 			{"secondary-input", "host content changed", file(b, "host.gb", "pbat5.gb")},
 			{"secondary-input", "host annotation changed (same residues)", file(b, "host.gb", "phix_part-relabel.gb")}}
 		plans = append(plans, cmdPlan{"infix", b, n, []string{"format", "embed"}})
+		bm := file(inv{args: []string{"infix", "100", "host.gb"}, stdin: "guest.fasta"}, "host.gb", "hosts-multi.gb")
+		plans = append(plans, cmdPlan{"infix", bm, []neighbour{{"secondary-input", "three host records; the last one changed in its last residue", file(bm, "host.gb", "hosts-multi-tail.gb")}}, nil})
 	}
 	{
 		b := file(mk("insert", "100", "guest.fa"), "guest.fa", "guest.fasta")
@@ -411,6 +413,26 @@ func (x *c14run) loadInputs() error {
 		"bad-field.gb":         bytes.Replace(phix, []byte("FEATURES             Location/Qualifiers\n"), []byte("FEATURES             Location/Qualifiers\n     gene            oops\n"), 1),
 		"bad-second.gb":        append(append([]byte{}, part...), phix[:len(phix)/2]...),
 		"empty":                {},
+	}
+	// a host file of three records, and its twin that differs in the last
+	// residue of the last record only (far behind anything a reader has seen
+	// when it finished the first record).
+	{
+		hosts := append(append(append([]byte{}, part...), phix...), pbat...)
+		twin := append([]byte{}, hosts...)
+		if e := bytes.LastIndex(twin, []byte("\n//")); e > 0 {
+			for k := e - 1; k > 0; k-- {
+				if twin[k] == 'a' || twin[k] == 'c' || twin[k] == 'g' || twin[k] == 't' {
+					if twin[k] == 'a' {
+						twin[k] = 'c'
+					} else {
+						twin[k] = 'a'
+					}
+					break
+				}
+			}
+		}
+		x.inputs["hosts-multi.gb"], x.inputs["hosts-multi-tail.gb"] = hosts, twin
 	}
 	// phiX with a second value for the /db_xref of its first gene (a multi-valued qualifier).
 	if i := bytes.Index(phix, []byte("/db_xref=\"GeneID")); i >= 0 {
